@@ -4,6 +4,6 @@ mod=$1; shift
 export JAVA_TOOL_OPTIONS="-Xss1g -Dtlc2.tool.queue.IStateQueue=StateDeque"
 cd /verif/spec
 for f in "$@"; do
-  ( TRACE=$f timeout 600 tlc -workers 1 -metadir /verif/work/md_$$_$(basename $f) -noGenerateSpecTE -config $mod.cfg $mod.tla 2>&1 | grep -E 'REJECT|KNOWN|Error|violated|UNCONSUMED' | cut -c1-220 | sed "s|^|$(basename $f): |" ; rm -rf /verif/work/md_$$_$(basename $f) ) &
+  ( TRACE=$f timeout 600 java -XX:+UseSerialGC -Xmx3g -cp /opt/veriftools/tla/tla2tools.jar:/opt/veriftools/tla/CommunityModules-deps.jar tlc2.TLC -workers 1 -metadir /verif/work/md_$$_$(basename $f) -noGenerateSpecTE -config $mod.cfg $mod.tla 2>&1 | grep -E 'REJECT|KNOWN|Error|violated|UNCONSUMED' | cut -c1-220 | sed "s|^|$(basename $f): |" ; rm -rf /verif/work/md_$$_$(basename $f) ) &
 done
 wait
